@@ -188,6 +188,8 @@ def run(tier, seed):
         for cb in (True, False):
             for _ in range(10 if q else 60):
                 trig_case(ctx, PL, drv, rng, name, cb, tier)
+            for a in G.corner_args(name, cb):          # ends of the ranges, Bessel zeros
+                trig_case(ctx, PL, drv, rng, name, cb, tier, args=a)
     # call histories: the same tau with a sequence of epsilons, cosine and sine alternating
     for tau in ((10.0, 3.5) if q else (10.0, 3.5, 25.0, 1.0)):
         for eps in (1e-2, 4e-7, 1e-10, 1e-9, 0.3):
@@ -199,6 +201,8 @@ def run(tier, seed):
     for cb in (True, False):
         for _ in range(12 if q else 60):
             inv_case(ctx, PL, drv, rng, cb, tier)
+        for a in G.corner_args("invert", cb):
+            inv_case(ctx, PL, drv, rng, cb, tier, args=a)
     for name in G.REG:
         if G.REG[name][1] == "erf":
             for _ in range(10 if q else 60):
